@@ -39,6 +39,7 @@ type Case struct {
 	IDs      []uint32 `json:"ids"`       // chain root .. target (len = depth+1), pairwise distinct
 	Seeds    []byte   `json:"seeds"`     // key seed per agent
 	Side     bool     `json:"side"`      // a sibling of the target hangs off the target's parent
+	SideFirst bool    `json:"side_first"` // the sibling connected before the target (it precedes it in the parent's link list)
 	SideID   uint32   `json:"side_id"`
 	Delay    uint32   `json:"delay"`     // sleep task arguments
 	Jitter   uint32   `json:"jitter"`
@@ -74,6 +75,7 @@ func gen(t *rapid.T) Case {
 		}
 	}
 	c.Side = rapid.Bool().Draw(t, "side")
+	c.SideFirst = rapid.Bool().Draw(t, "sidefirst")
 	for {
 		c.SideID = idg.Draw(t, "sideid")
 		if !seen[c.SideID] {
@@ -156,15 +158,22 @@ func check(c Case) *core.Violation {
 		}
 		return nil
 	}
-	for i := 1; i <= depth; i++ {
-		if v := connect(i-1, chain[i]); v != nil {
-			return v
-		}
-	}
 	var side sess
 	if c.Side {
 		k, iv := keyFrom(0xee)
 		side = sess{ID: c.SideID, Key: k, IV: iv, Meta: agx.DefaultMeta(c.SideID)}
+	}
+	for i := 1; i <= depth; i++ {
+		if c.Side && c.SideFirst && i == depth {
+			if v := connect(depth-1, side); v != nil {
+				return v
+			}
+		}
+		if v := connect(i-1, chain[i]); v != nil {
+			return v
+		}
+	}
+	if c.Side && !c.SideFirst {
 		if v := connect(depth-1, side); v != nil {
 			return v
 		}
@@ -320,7 +329,20 @@ func classify(c Case) core.Class {
 			big = true
 		}
 	}
-	cl := core.Class{NonTrivial: depth >= 2 || big, Fingerprint: fmt.Sprintf("d=%d|big=%v|side=%v|up=%s", depth, big, c.Side, c.Up)}
+	sideCls := "none"
+	if c.Side {
+		sideCls = "after"
+		if c.SideFirst {
+			sideCls = "before"
+		}
+		if c.SideID >= 0x80000000 {
+			sideCls += "-big"
+		}
+	}
+	cl := core.Class{NonTrivial: depth >= 2 || big, Fingerprint: fmt.Sprintf("d=%d|big=%v|side=%s|up=%s", depth, big, sideCls, c.Up)}
+	if c.IDs[depth] == 0x7fffffff {
+		cl.Fingerprint += "|t=maxint32"
+	}
 	cl.Labels = []string{fmt.Sprintf("depth:%d", depth), "up:" + c.Up}
 	if big {
 		cl.Labels = append(cl.Labels, "id>=2^31")
